@@ -100,6 +100,10 @@ impl StringNumber {
         self.significand.len() == 0
     }
 
+    pub fn has_point(&self) -> bool {
+        self.point >= 0
+    }
+
     pub fn to_string(&mut self) -> String {
         if self.is_zero() {
             return "0".to_owned();
